@@ -72,6 +72,7 @@ type world struct {
 type bodySpec struct {
 	Yields  int
 	Sources []string // absolute paths read by the body (files or directories)
+	Globs   []string // absolute directories whose direct *.txt children the body reads
 	Outs    []string // absolute paths written by the body
 	Text    string   // written to stdout
 }
@@ -210,6 +211,15 @@ func (w *world) simBody(thread *starlark.Thread, fn *starlark.Builtin, args star
 	}
 	for _, p := range reads {
 		parts = append(parts, readTree(p))
+	}
+	for _, g := range spec.Globs {
+		ents, _ := os.ReadDir(g)
+		for _, e := range ents {
+			if !e.IsDir() && strings.HasSuffix(e.Name(), ".txt") {
+				b, _ := os.ReadFile(filepath.Join(g, e.Name()))
+				parts = append(parts, []byte(e.Name()), b)
+			}
+		}
 	}
 	// stdout, in tape-chosen chunks
 	if spec.Text != "" {
